@@ -19,6 +19,7 @@ type task struct {
 	env      *Env
 	wake     chan struct{}
 	realDone chan struct{} // closed outside RaceDisable: the only real happens-before edge task -> main
+	exit     chan struct{} // closed by main after the race log of the run has been read
 	stats    *Stats
 	viol     []Violation
 	note     string // attached to the next yield message (trace mode only)
@@ -177,7 +178,7 @@ func RunG(s *scn.Scenario, opt Options) *Result {
 	x.sim.toSched = make(chan ymsg)
 	var estimate int64
 	for i, ops := range s.Tasks {
-		t := &task{id: int32(i), ops: ops, wake: make(chan struct{}), realDone: make(chan struct{}), stats: NewStats()}
+		t := &task{id: int32(i), ops: ops, wake: make(chan struct{}), realDone: make(chan struct{}), exit: make(chan struct{}), stats: NewStats()}
 		for _, st := range ops {
 			w := x.wantFor(st)
 			t.want = append(t.want, w)
@@ -222,6 +223,9 @@ func RunG(s *scn.Scenario, opt Options) *Result {
 	}
 	if rep := opt.RaceLog.Since(mark); rep != "" {
 		x.raceViolations(rep)
+	}
+	for _, t := range x.sim.tasks {
+		close(t.exit) // parked or deadlocked tasks never read it; finished ones leave now
 	}
 	x.res.Sched = g.rle
 	x.res.SchedHash = hashInts(g.rle)
@@ -360,6 +364,10 @@ func (x *exec) taskMain(t *task) {
 	s.toSched <- ymsg{task: t.id, kind: evDone}
 	raceEnable()
 	close(t.realDone)
+	// Stay alive until main has collected the race reports of this run: the
+	// detector silently drops a report when it cannot restore the stack of the
+	// earlier access, and the trace of a finished goroutine may be recycled.
+	<-t.exit
 }
 
 // wantFor computes the reference outcome of a task operation (main goroutine).
